@@ -199,3 +199,25 @@ def run(ck, facts, tier):
                 ck.ok(R, "relate_alias_ty:Invariant->AliasEq(alias = ty)")
             else:
                 ck.violation(R, "relate_alias_ty:Invariant->AliasEq(alias = ty)", ra.where(inv["ln"]), "under invariance the alias must be equated with the other type itself")
+
+    R = "C07.ALIAS-GENERALIZED"
+    ck.rule(R, "K1: Unifier::generalize_ty replaces an alias (projection / opaque) by a *fresh inference variable* on every path, whatever the "
+               "variance: the generalized type is then related back to the original, which is what emits the AliasEq subgoal for an "
+               "alias nested inside a constructor - returning the alias itself makes both sides identical and the inner projection is "
+               "never normalized")
+    gk = "chalk_solve::infer::unify::Unifier::generalize_ty"
+    gb = need_body(ck, facts, R, gk)
+    if gb:
+        from kit import loop_flow
+        ms = enum_matches(facts.thir(gk), "chalk_ir::TyKind")
+        if not ms:
+            ck.violation(R, "generalize_ty:match", gb.where(), "match on TyKind not found")
+        else:
+            arms = select_arms(ms[0], V("Alias"))
+            arm = ms[0]["arms"][arms[0][0]]
+            res = loop_flow(arm["body"], False, lambda n: n.get("k") == "call" and callee_matches(n, ("InferenceTable::<I>::new_variable", "new_variable")))
+            if res and all(p for oc, p in res):
+                ck.ok(R, "generalize_ty:Alias->fresh-variable", "every path creates a new variable")
+            else:
+                ck.violation(R, "generalize_ty:Alias->fresh-variable", gb.where(arm["ln"]),
+                             "a path through the Alias arm does not create a fresh variable (the alias is kept in the generalized type)")
